@@ -1060,7 +1060,7 @@ func ruleC07Query(c *Checker) {
 				okr := !inKeyLoop
 				for _, e := range refPass {
 					h := loopHeadOf(e.From)
-					if !h.Dominates(r.Block()) {
+					if !blockDominates(h, r.Block()) {
 						okr = false
 					}
 				}
